@@ -30,19 +30,19 @@ type Cell struct {
 }
 
 type Addr struct {
-	Kind  AddrKind
-	Ref   string
-	Ty    types.Type // AObj: struct type; AField: containing struct type; APtr/ACell: elem type
-	Field int
-	Cell  *Cell
-	Idx   string
-	Slice *Val
-	Glob  *ssa.Global
-	Sel   []int  // selector path inside a by-value struct held in a cell / element
-	Guard string // lock key required to touch what this address designates ("" = none)
-	Fresh bool   // designates an object allocated on this path
-	rebind func(Val) // AElem: re-binds the SSA value naming the slice after an element store
-	owner      *Addr // AObj sub-object: containing object
+	Kind       AddrKind
+	Ref        string
+	Ty         types.Type // AObj: struct type; AField: containing struct type; APtr/ACell: elem type
+	Field      int
+	Cell       *Cell
+	Idx        string
+	Slice      *Val
+	Glob       *ssa.Global
+	Sel        []int     // selector path inside a by-value struct held in a cell / element
+	Guard      string    // lock key required to touch what this address designates ("" = none)
+	Fresh      bool      // designates an object allocated on this path
+	rebind     func(Val) // AElem: re-binds the SSA value naming the slice after an element store
+	owner      *Addr     // AObj sub-object: containing object
 	ownerField int
 }
 
@@ -92,23 +92,23 @@ const (
 )
 
 type Frame struct {
-	fn      *ssa.Function
-	env     map[ssa.Value]Val
-	names   map[string]Val
-	defers  []Deferred
-	parent  *Frame
-	mode    FrameMode
-	depth   int
-	cut     map[*ssa.BasicBlock]bool
-	unroll  map[*ssa.BasicBlock]int
-	prev    *ssa.BasicBlock
-	hasRec  bool // has a deferred closure that calls recover()
-	con     *Contract
-	useCtx  *useCtx
-	bound   []string // quantified variables (ModeContractUse / pure-forall)
-	selfRun bool     // frame is the inlined target of a contract self-call
-	isInit  bool
-	stopAt  *ssa.BasicBlock
+	fn          *ssa.Function
+	env         map[ssa.Value]Val
+	names       map[string]Val
+	defers      []Deferred
+	parent      *Frame
+	mode        FrameMode
+	depth       int
+	cut         map[*ssa.BasicBlock]bool
+	unroll      map[*ssa.BasicBlock]int
+	prev        *ssa.BasicBlock
+	hasRec      bool // has a deferred closure that calls recover()
+	con         *Contract
+	useCtx      *useCtx
+	bound       []string // quantified variables (ModeContractUse / pure-forall)
+	selfRun     bool     // frame is the inlined target of a contract self-call
+	isInit      bool
+	stopAt      *ssa.BasicBlock
 	conBindings []Val
 }
 
@@ -150,22 +150,22 @@ type Event struct {
 }
 
 type State struct {
-	pc       []string
-	heap     map[string]string
-	epoch    int
-	cells    map[*Cell]Val
-	globals  map[*ssa.Global]Val
-	held     map[string]int // 1 = write, 2 = read
-	released map[string]bool
-	trace    []string
-	nfresh   int
-	dead     bool
-	events   []Event
-	ghost    map[string]string // named ghost scalars (terms)
-	dirty    map[string]bool // heap arrays written at a location that existed before this path (frame)
+	pc          []string
+	heap        map[string]string
+	epoch       int
+	cells       map[*Cell]Val
+	globals     map[*ssa.Global]Val
+	held        map[string]int // 1 = write, 2 = read
+	released    map[string]bool
+	trace       []string
+	nfresh      int
+	dead        bool
+	events      []Event
+	ghost       map[string]string // named ghost scalars (terms)
+	dirty       map[string]bool   // heap arrays written at a location that existed before this path (frame)
 	pendingZero []string
-	closures    []Val // closures created on this path (most recent last)
-	lit      map[string]map[string]Val // heap array -> literal index -> stored value (fresh objects)
+	closures    []Val                     // closures created on this path (most recent last)
+	lit         map[string]map[string]Val // heap array -> literal index -> stored value (fresh objects)
 }
 
 func newState() *State {
@@ -248,37 +248,37 @@ type Unsupported struct {
 
 // Run is one verification run over a loaded program.
 type Run struct {
-	prog     *ssa.Program
-	fset     *token.FileSet
-	d        *Decls
-	spec     *SpecDB
-	arrSorts map[string]Sort
-	arrRefEl map[string]bool
+	prog          *ssa.Program
+	fset          *token.FileSet
+	d             *Decls
+	spec          *SpecDB
+	arrSorts      map[string]Sort
+	arrRefEl      map[string]bool
 	arrSliceRefEl map[string]string // arrays whose elements are slices of references: slice sort
-	mu       sync.Mutex
-	obls     []*Obligation
-	wg       sync.WaitGroup
-	unsup    []Unsupported
-	unit     string
-	cellN    int
-	pathN    int
-	maxPaths int
-	timeout  int
-	maxDepth int
-	assumed  []string // verifAssume records
-	trusted  map[string]bool
-	modCache map[*ssa.Function]*ModSet
-	pathsCut bool
-	inlined  map[string]bool
-	opaque   map[string]bool
-	curProps []string
-	stepN    int
-	pureDepth int
-	curCon   *Contract
-	closable map[string]bool
-	ctxInner map[string]Val
-	mapZero  map[string]string // Mv array name -> zero term of the element type
-	inInit   bool
+	mu            sync.Mutex
+	obls          []*Obligation
+	wg            sync.WaitGroup
+	unsup         []Unsupported
+	unit          string
+	cellN         int
+	pathN         int
+	maxPaths      int
+	timeout       int
+	maxDepth      int
+	assumed       []string // verifAssume records
+	trusted       map[string]bool
+	modCache      map[*ssa.Function]*ModSet
+	pathsCut      bool
+	inlined       map[string]bool
+	opaque        map[string]bool
+	curProps      []string
+	stepN         int
+	pureDepth     int
+	curCon        *Contract
+	closable      map[string]bool
+	ctxInner      map[string]Val
+	mapZero       map[string]string // Mv array name -> zero term of the element type
+	inInit        bool
 }
 
 func (x *Run) unsupported(what string, pos token.Pos) {
